@@ -17,7 +17,11 @@ ASSUMPTIONS = ["max_time is excluded (clock-dependent by definition)"]
 def make_run(bseed, cfg, tmp, tag, P=None, ext="h5", diagnostic=False, progressbar=False, visual=False, animate=False, clock=None, seed=None, used_before=False):
     _, S, MM, D = _hm()
     r = random.Random(bseed)
-    dist, tstr, bstr, tdesc, lb, ub = make_target(r, cfg["target"], cfg["d"], cfg["boxed"])
+    if cfg["target"] == "narrow-normal":
+        # a target much narrower than the initial step: an autotuned step size is pushed through zero by the first rejections and has to be floored
+        dist, lb, ub = D.Normal(np.zeros((cfg["d"], 1)), 1e-4), None, None
+    else:
+        dist, tstr, bstr, tdesc, lb, ub = make_target(r, cfg["target"], cfg["d"], cfg["boxed"])
     q0 = inside_start(r, cfg["d"], lb, ub)
     name = cfg["sampler"] + ("_visual" if visual else "")
     cls = getattr(S, name)
@@ -145,6 +149,15 @@ def run(tier, seed):
                    "autotuning": rnd.random() < 0.4, "mass": rnd.choice(["unit", "diag", "full"]), "integrator": rnd.choice(["lf", "3s", "4s"]),
                    "n": rnd.choice([1, 3]), "randomize": rnd.random() < 0.5, "P": rnd.choice([6, 12, 20]), "t": rnd.choice([1, 2])}
             cfg["d"] = 2 if cfg["target"] == "himmelblau" else rnd.choice([2, 3])
+            forced_variants = []
+            if ci == 3:
+                # observers of a run without step-size randomisation: the animated sampler must not draw anything the plain one does not
+                cfg.update(sampler="HMC", integrator="lf", randomize=False, autotuning=False)
+                forced_variants = ["visual", "visual+animation"]
+            if ci == 4:
+                # an autotuned RWMH run whose step size hits the floor, observed with and without diagnostic mode
+                cfg.update(sampler="RWMH", autotuning=True, stepsize=1.5, target="narrow-normal", boxed=False, P=20)
+                forced_variants = ["diagnostic_mode"]
             bseed = rnd.randrange(1 << 30)
             base = make_run(bseed, cfg, tmp, f"{ci}b")
             moved = len({base[:, j].tobytes() for j in range(base.shape[1])})
@@ -163,7 +176,7 @@ def run(tier, seed):
                 if cfg["sampler"] == "HMC":
                     variants.append(("visual+animation", dict(visual=True, animate=True)))
             if not thorough:
-                variants = variants[:3] + rnd.sample(variants[3:], 2)
+                variants = variants[:3] + [v for v in variants[3:] if v[0] in forced_variants] + rnd.sample([v for v in variants[3:] if v[0] not in forced_variants], 2)
             for vi, (vname, kw) in enumerate(variants):
                 unrelated_activity(rnd)
                 if "visual" in vname:
